@@ -356,6 +356,20 @@ async fn api_call<T>(
     }
 }
 
+/// The reader task's pending `DataChannel::recv()` must have returned for good (stream end) within `bound`.
+async fn recv_returns(side: &Arc<Side>, label: &str, call: &str, bound: Duration) -> Value {
+    log("app", label, "api_begin", json!({"call": call}));
+    let t0 = Instant::now();
+    let ended = wait_until(bound, || side.dc_ended.load(Ordering::SeqCst)).await;
+    let ms = t0.elapsed().as_millis() as u64;
+    if ended {
+        log("app", label, "api_end", json!({"call": call, "ms": ms, "res": "ended"}));
+    } else {
+        log("app", label, "api_hang", json!({"call": call, "bound_ms": bound.as_millis() as u64}));
+    }
+    json!({"call": call, "hang": !ended, "ms": ms, "res": if ended { "ended" } else { "pending" }})
+}
+
 fn okerr<T, E: std::fmt::Display>(r: &Result<T, E>) -> String {
     match r {
         Ok(_) => "ok".into(),
@@ -825,6 +839,15 @@ async fn run_c17(sc: &Value, attempt: u64, rec: Arc<Recorder>) -> Value {
 
     // ---- subsequent API calls must return promptly
     let bound = Duration::from_secs(4);
+    // a reader parked in DataChannel::recv() (waiting for Open, or for messages): once the SCTP association that
+    // carries the channel has ended, the channel's stream ends - whatever state the channel was in
+    let sctp_seen = |label: &str| {
+        let l = label.to_string();
+        rec.find_last(|e| e["comp"] == "sctp" && e["inst"] == l.as_str()).is_some()
+    };
+    if reached && v.dc.lock().is_some() && sctp_seen(&victim) {
+        api.push(recv_returns(&v, &victim, "dc.recv", bound).await);
+    }
     if let Some(pc) = v.try_pc() {
         let l = v.label.clone();
         if reached {
@@ -860,6 +883,11 @@ async fn run_c17(sc: &Value, attempt: u64, rec: Arc<Recorder>) -> Value {
     let peer_after2 = format!("{:?}", v.peer_state().unwrap());
     let reason_after2 = v.reason().to_string();
     log("life", &victim, "second_close", json!({"called": closed_again, "before": peer_before2, "peer": peer_after2, "reason": reason_after2}));
+    // after close() / drop of the connection a pending recv() on any of its channels returns (also on a channel
+    // whose association never came up)
+    if v.dc.lock().is_some() {
+        api.push(recv_returns(&v, &victim, "dc.recv.closed", bound).await);
+    }
     let dc_was_open = v.dc_open.load(Ordering::SeqCst);
     let other = pair.side(if victim == "A" { "B" } else { "A" }).clone();
     let other_obs_peer = format!("{:?}", other.peer_state().unwrap());
@@ -876,6 +904,10 @@ async fn run_c17(sc: &Value, attempt: u64, rec: Arc<Recorder>) -> Value {
         other_api.push(api_call(&l, "send_data", bound, pc.send_data(id, b"after"), okerr).await);
         other_api.push(api_call(&l, "wait_for_gathering_complete", bound, pc.wait_for_gathering_complete(), |_| "ok".into()).await);
         drop(pc);
+    }
+    if other.dc.lock().is_some() {
+        let l = other.label.clone();
+        other_api.push(recv_returns(&other, &l, "dc.recv.closed", bound).await);
     }
     let other_peer = format!("{:?}", other.peer_state().unwrap());
     let other_reason = other.reason().to_string();
